@@ -79,10 +79,13 @@ class U:
     d0.put_region(self.r[2])
     d1.put_region(self.r[3])
     e = self.e
-    if start >= 1:      # a small attached tree using a region
+    if start == 3:      # a body WITHOUT children that is the document's body and references a region (len(body) == 0: falsy)
+      d0.set_body(e[0])
+      e[0].set_region(self.r[0])
+    if start in (1, 2):      # a small attached tree using a region
       e[0].push_child(e[1]); e[1].push_child(e[3]); e[3].push_child(e[4]); e[4].push_child(e[7]); d0.set_body(e[0])
       e[3].set_region(self.r[0]); e[4].set_region(self.r[2])
-    if start >= 2:      # siblings and ruby
+    if start == 2:      # siblings and ruby
       e[3].push_child(e[6]); e[3].push_child(e[5]); e[3].push_child(e[8])
       e[8].push_children([e[14], e[15]])
       e[15].push_children([e[12], e[10], e[13]])
@@ -307,10 +310,10 @@ def main():
   n = len(OPS)
   rec = Recorder("C15", "call histories over a universe of one or two elements per kind, two documents, four regions (two objects "
                  "sharing an id), an ISD region; operations with valid and invalid arguments; a case is a distinct (start state, history prefix)",
-                 {"operations": n, "start_states": 2 if QUICK else 3, "exhaustive_length": 2 if QUICK else 2, "random_walks": "length 10" if QUICK else "length 3 and 12"})
+                 {"operations": n, "start_states": 3 if QUICK else 4, "exhaustive_length": 2 if QUICK else 2, "random_walks": "length 10" if QUICK else "length 3 and 12"})
   jobs = []
   step = max(1, n // 16)
-  for start in ((0, 2) if QUICK else (0, 1, 2)):
+  for start in ((0, 2, 3) if QUICK else (0, 1, 2, 3)):
     for lo in range(0, n, step):
       jobs.append(("len2", start, lo, min(n, lo + step)))
   walks = 400 if QUICK else 6000
